@@ -229,9 +229,10 @@ func Universe(name string, size string, seed int64) []RawKey {
 
 	case "textq":
 		// small collation universe for closed exploration
-		ws := []string{"a", "A", "á", "ab", "Ab", "abc", "rôle", "item2", "caf\u00e9"}
+		// five different leading primary weights: the root passes through a full 4-slot node and the 16-slot class
+		ws := []string{"a", "A", "ab", "Ab", "rôle", "item2", "caf\u00e9", "z", "п"}
 		if thorough {
-			ws = append(ws, "b", "role", "中")
+			ws = append(ws, "b", "role", "中", "á")
 		}
 		var u []RawKey
 		for _, w := range ws {
